@@ -4,6 +4,7 @@
 //	   the log holds n entries; a Merge of a full state of another instance that holds a NEWER entry for every key
 //	   (milliseconds of work) races a local Log call for one of the keys.  Whatever the interleaving, the key ends up
 //	   with the newest of the three entries, the local one: an older entry never overwrites a newer one.
+//	bigentry <n> -> <merge ok|refused> <firing at the peer: big/small> <after restart: big/small | refused>
 //	renamefault <k> -> <entries after restart> <ticks while blocked>
 //	   the Maintenance loop (20 ms) cannot install its snapshot for a while (a directory sits at the snapshot path, the
 //	   rename fails), then the obstacle goes away; later ticks and the shutdown run must write the file: a restart from
@@ -118,6 +119,54 @@ func exec(line string) string {
 			out = mergeRaceOnce(k+j, n, took*time.Duration(j)/16, &t2)
 		}
 		return out
+	case "bigentry":
+		// a group with thousands of firing alerts: its log entry is large (≈ 10 bytes per alert) but far below the 4 MiB
+		// record limit of the snapshot format; peers must accept it (gossip / full state) and a restart must reload it
+		n, _ := strconv.Atoi(t[1])
+		fs := make([]uint64, n)
+		for i := range fs {
+			fs[i] = uint64(1)<<40 + uint64(i)*7919
+		}
+		dir, err := os.MkdirTemp("", "verif-nflograce-")
+		if err != nil {
+			panic(err)
+		}
+		defer os.RemoveAll(dir)
+		snap := filepath.Join(dir, "nflog")
+		a, b := newLog(snap), newLog("")
+		if err := a.Log(recv, "big", fs, nil, nil, 0); err != nil {
+			return "logerror 0 0"
+		}
+		if err := a.Log(recv, "small", []uint64{1}, nil, nil, 0); err != nil {
+			return "logerror 0 0"
+		}
+		st, err := a.MarshalBinary()
+		if err != nil {
+			return "marshalerror 0 0"
+		}
+		merged := "ok"
+		if err := b.Merge(st); err != nil {
+			merged = "refused"
+		}
+		count := func(l *nflog.Log, gk string) int {
+			es, err := l.Query(nflog.QGroupKey(gk), nflog.QReceiver(recv))
+			if err != nil || len(es) != 1 {
+				return -1
+			}
+			return len(es[0].FiringAlerts)
+		}
+		atB := fmt.Sprintf("%d/%d", count(b, "big"), count(b, "small"))
+		// shutdown snapshot of a, then the next start
+		stopc := make(chan struct{})
+		done := make(chan struct{})
+		go func() { defer close(done); a.Maintenance(time.Hour, snap, stopc, nil) }()
+		close(stopc)
+		<-done
+		reloaded := "refused"
+		if l2, err := nflog.New(nflog.Options{Retention: time.Hour, Metrics: prometheus.NewRegistry(), SnapshotFile: snap}); err == nil {
+			reloaded = fmt.Sprintf("%d/%d", count(l2, "big"), count(l2, "small"))
+		}
+		return fmt.Sprintf("%s %s %s", merged, atB, reloaded)
 	case "renamefault":
 		dir, err := os.MkdirTemp("", "verif-nflograce-")
 		if err != nil {
@@ -196,6 +245,9 @@ func TestEngine(t *testing.T) {
 		}
 		if id%4 == 0 {
 			ops = append(ops, fmt.Sprintf("renamefault %d", id))
+		}
+		if id%4 == 1 {
+			ops = append(ops, fmt.Sprintf("bigentry %d", []int{3000, 9000, 20000}[r.IntN(3)]))
 		}
 		runCase(tr, fmt.Sprintf("case %d", id), ops)
 	}
